@@ -71,7 +71,7 @@ let clauses_raw h (impl : string) : (string * bool) list =
   let fail = parse_opt (get h "fail") in
   let dlo = parse_opt (get h "dl") in
   let alg = get h "alg" in
-  if impl = "PANIC" || impl = "TIMEOUT" then [ ("no_panic", false) ]
+  if impl = "PANIC" || impl = "TIMEOUT" || impl = "ABORT" then [ ("no_panic", false) ]
   else
     let ih = parse_impl impl in
     let cs = parse_calls (get ih "calls") in
@@ -143,7 +143,7 @@ let clauses_capture h (impl : string) : (string * bool) list =
   let os, oe = parse_range (get h "or") and ns, ne = parse_range (get h "nr") in
   let dlo = parse_opt (get h "dl") in
   let alg = get h "alg" in
-  if impl = "PANIC" || impl = "TIMEOUT" then [ ("no_panic", false) ]
+  if impl = "PANIC" || impl = "TIMEOUT" || impl = "ABORT" then [ ("no_panic", false) ]
   else
     let ih = parse_impl impl in
     let ops = calls_to_ops (parse_calls (get ih "ops")) in
@@ -188,7 +188,7 @@ let clauses_adapter h (impl : string) : (string * bool) list =
   let stack = get h "stack" in
   let fail = parse_opt (get h "fail") in
   let script = parse_calls (get h "script") in
-  if impl = "PANIC" || impl = "TIMEOUT" then [ ("no_panic", false) ]
+  if impl = "PANIC" || impl = "TIMEOUT" || impl = "ABORT" then [ ("no_panic", false) ]
   else
     let ih = parse_impl impl in
     let cs = parse_calls (get ih "calls") in
@@ -212,7 +212,7 @@ let clauses_adapter h (impl : string) : (string * bool) list =
         @ if stack = "replace" then [ ("ops_exact", check_ops_exact orc.o_on (n os) (n oe) (n ns) (n ne) ops) ] else []
 
 let clauses_iter h (impl : string) : (string * bool) list =
-  if impl = "PANIC" || impl = "TIMEOUT" then [ ("no_panic", false) ]
+  if impl = "PANIC" || impl = "TIMEOUT" || impl = "ABORT" then [ ("no_panic", false) ]
   else
     let ih = parse_impl impl in
     let ops = calls_to_ops (parse_calls (get h "ops")) in
@@ -254,7 +254,7 @@ let clauses_iter h (impl : string) : (string * bool) list =
       ("all_changes_concat", get ih "all_same" = "1") ]
 
 let clauses_group h (impl : string) : (string * bool) list =
-  if impl = "PANIC" || impl = "TIMEOUT" then [ ("no_panic", false) ]
+  if impl = "PANIC" || impl = "TIMEOUT" || impl = "ABORT" then [ ("no_panic", false) ]
   else
     let ih = parse_impl impl in
     let nn = nat_of_int (int_of_string (get h "n")) in
